@@ -13,6 +13,8 @@ Families (all enumerated completely, sharded by running index):
  B  loops       frame x iterable x use of `loop` x way of leaving the loop x enable_loop mode
  B3 mutating    a list the loop body appends to / trims while `% for` iterates it, with loop.last /
                 loop.reverse_index read before and after the change (length = the list's current length)
+ B4 nested      a `% for` using `loop` written inside an anonymous <%block>, a <%call> body or a def nested
+                in a def, itself used inside a `% for` of the enclosing callable
  B2 use sites   where in the `% for` body `loop` is mentioned (expression, control line,
                 <% %>, call argument, tag attribute, call body, ...)
  C  spellings   every indentation combination of the '%' lines of the small skeletons,
@@ -42,18 +44,20 @@ READY = True
 BOUNDS = {
     "quick": {
         "A": "all bodies of weight <=3, depth <=3, full alphabet (16 rotating spellings, one per program; weight <=1 under all 16, weight 2 under 4); weight 4, depth <=4 over the skeleton alphabet without def calls",
-        "B": "9 frames x 7 iterables x 10 loop uses x 5 exits, enable_loop on; the three other modes on 2 frames; 72 two-deep frame compositions x 1 iterable x 3 uses x 5 exits",
+        "B": "9 frames x 8 iterables (one raises when evaluated) x 10 loop uses x 5 exits, enable_loop on; the three other modes on 2 frames; 72 two-deep frame compositions x 1 iterable x 3 uses x 5 exits",
         "B2": "12 use sites x 2 frames x 2 iterables x 3 for-line comments x modes on/page",
         "B3": "work list changed by the loop body: 7 mutations x 3 reads (last / reverse_index / both) x 3 placements (before / after / both) x 3 initial lengths x 3 frames x modes on/page",
+        "B4": "`% for` using loop inside a nested callable (anonymous block, <%call> body, the same two inside a def, def nested in a def) used inside a `% for` of the enclosing callable that mentions loop or not: 5 x 2 x 3 iterables x 8 uses x 3 exits x modes on/page",
         "C": "skeletons with <=3 '%' lines: all 4^n indentations (LF/CRLF and '% kw' / '%kw' / '%  kw' rotating); 4..6 lines: 16-row cover x LF/CRLF",
         "D": "block shapes x 4 margins x 5 positions x LF/CRLF",
         "E": "except forms x raised x handler count",
     },
     "thorough": {
         "A": "all bodies of weight <=4, depth <=3, full alphabet (16 rotating spellings, one per program; weight <=2 under all 16, weight 3 under 4); weight 5, depth <=5 over the skeleton alphabet",
-        "B": "9 frames x 7 iterables x 10 loop uses x 5 exits x 4 enable_loop modes; 72 two-deep frame compositions x 7 x 10 x 5, enable_loop on",
+        "B": "9 frames x 8 iterables (one raises when evaluated) x 10 loop uses x 5 exits x 4 enable_loop modes; 72 two-deep frame compositions x 8 x 10 x 5, enable_loop on",
         "B2": "12 use sites x 9 frames x 7 iterables x 3 for-line comments x 4 modes",
         "B3": "work list changed by the loop body: 7 mutations x 3 reads x 3 placements x 3 initial lengths x 8 frames x 4 modes",
+        "B4": "5 nested-callable kinds x 2 x 7 iterables x 8 uses x 3 exits x 4 modes",
         "C": "skeletons with <=4 '%' lines: all 4^n indentations x LF/CRLF ('% kw' / '%kw' / '%  kw' rotating); 5..8 lines: 16-row cover x LF/CRLF",
         "D": "block shapes x 4 margins x 5 positions x LF/CRLF",
         "E": "except forms x raised x handler count",
@@ -85,6 +89,7 @@ ASSUMPTIONS = [
     "every character outside directives is output, the terminator of a '%'/'##' line and backslash-newline are not (C01's rule); CRLF text stays CRLF",
     "names assigned in a <% %> block or bound by a control line are locals of the enclosing body/def; defs only read their own locals and never-assigned context names (cross-callable visibility is C04's)",
     "`loop` read where no `% for` of the same callable is active: only 'an exception, not output' is demanded; `loop` inside the else-clause of its own `% for` is not generated (not fixed by the statement)",
+    "anonymous blocks and <%call> bodies are closures of the enclosing callable: a `% for` inside them has the enclosing `% for` as loop.parent; such a closure never reads the enclosing `loop` outside its own `% for` (Python scoping makes `loop` its local there - not fixed by the statement)",
     "`% finally:` and `% else:` under `% try` are outside the statement (it lists try/except): not generated",
     "exceptions are compared by class (and by arguments for the ValueError/KeyError the programs raise themselves)",
     "termination is checked with a limit of 3 s of process CPU time per case (a case needs about 2 ms)",
@@ -526,6 +531,9 @@ def iterables(dat):
         ("gen", "(z for z in [%d, %d, %d])" % (a, b, c), str(b), str(c)),
         ("range", "range(2)", "1", "1"),
         ("tuple", "%d, %d" % (a, b), str(b), str(b)),
+        # evaluating the iterable raises: nothing was entered, so nothing may be left (the enclosing loop
+        # stays current for a handler) and the exception that propagates is the original one
+        ("raises", "boom()", "0", "0"),
     ]
 
 
@@ -603,6 +611,8 @@ def family_B(tier, dat):
         for itr in its:
             for use in USES:
                 for ex in EXITS:
+                    if itr[0] == "raises" and ex != "exhaust":
+                        continue  # the loop body is never reached
                     S = subject(itr, use, ex, inner=(fr == "outer"))
                     defs, body = frame(fr, S, dat)
                     prog = {"defs": defs, "body": body, "page": None}
@@ -611,7 +621,7 @@ def family_B(tier, dat):
                         yield ("B-loops", prog, mode, [spelling(sp_i % 16)])
                         sp_i += 1
     if True:
-        its2 = its if tier != "quick" else [i for i in its if i[0] == "three"]
+        its2 = its if tier != "quick" else [i for i in its if i[0] in ("three", "raises")]
         uses2 = USES if tier != "quick" else ["index", "parent", "index+after"]
         for f1 in FRAMES:
             for f2 in FRAMES:
@@ -620,6 +630,8 @@ def family_B(tier, dat):
                 for itr in its2:
                     for use in uses2:
                         for ex in EXITS:
+                            if itr[0] == "raises" and ex != "exhaust":
+                                continue
                             S = subject(itr, use, ex, inner=(f1 == "outer"))
                             d1, b1 = frame(f1, S, dat, 1)
                             d2, b2 = frame(f2, b1, dat, 2)
@@ -700,6 +712,86 @@ def family_B2(tier, dat):
                     for mode in modes:
                         yield ("B2-sites", prog, mode, [spelling(k % 16)])
                         k += 1
+
+
+# --------------------------------------------------------------------------
+# family B4: a `% for` that uses `loop`, written inside a nested callable
+
+NESTS = ["block", "call-body", "block-in-def", "call-body-in-def", "nested-def"]
+B4_USES = ["none", "index", "first", "last", "evenodd", "rev", "cycle", "parent"]
+B4_EXITS = ["exhaust", "break", "return"]
+
+
+def family_B4(tier, dat):
+    """The loop under test sits in an anonymous <%block>, in the body of a <%call>, or in a <%def> nested in a
+    <%def>; that nested callable is itself used inside a `% for` of the enclosing callable, which mentions
+    `loop` or not.  Both loops are probed.  Blocks and call bodies are closures of the enclosing callable, so
+    `loop.parent` of the inner loop is the enclosing loop; for a nested def only the inner loop's own
+    attributes are read.  The nested callable never reads the enclosing `loop` outside its own `% for`
+    (Python makes `loop` its local there)."""
+    a, b, c = dat["items"]
+    L = lambda *p: ("L", tuple(p))  # noqa
+    wrap = ("wrap", "", (("Raw", "{${caller.body()}}{nl}", ("__o('{')", "__o(str(__cbstack[-1]()))", "__o('}')", "__o('{nl}')")),))
+    its = [i for i in iterables(dat) if i[0] in (("three", "str", "gen") if tier == "quick" else ("empty", "one", "three", "str", "gen", "range", "tuple"))]
+    modes = ["on", "page"] if tier == "quick" else MODES
+    outer_it = "[%d0, %d0]" % (a, b)
+    k = 0
+    for nest in NESTS:
+        for outer_uses in (True, False):
+            for itr in its:
+                for use in B4_USES:
+                    if use == "parent" and nest == "nested-def":
+                        continue
+                    if use == "parent" and not outer_uses:
+                        # the inner loop's parent is then the only mention of the enclosing loop: kept, it is
+                        # exactly the "mentioned only inside a nested callable" situation
+                        pass
+                    for ex in B4_EXITS:
+                        inner = subject(itr, use, ex)[:1]  # the `% for` only, no read after it
+                        inner = (("For", "b1", inner[0][2], _retarget(inner[0][3], "b1"), None, None),)
+                        head = L(("e", "o"), ("t", "/"), ("e", "loop.index")) if outer_uses else L(("e", "o"))
+                        tail = L(("t", "t="), ("e", "loop.index")) if outer_uses else L(("t", "t"))
+                        defs = ()
+                        if nest == "block":
+                            body = (("For", "o", outer_it, (head, ("Block", inner), tail), None, None),)
+                        elif nest == "call-body":
+                            defs = (wrap,)
+                            body = (("For", "o", outer_it, (head, ("CallBody", "wrap()", inner), tail), None, None),)
+                        elif nest == "block-in-def":
+                            defs = (("od", "", (("For", "o", outer_it, (head, ("Block", inner), tail), None, None),)),)
+                            body = (L(("e", "od()")),)
+                        elif nest == "call-body-in-def":
+                            defs = (wrap, ("od", "", (("For", "o", outer_it, (head, ("CallBody", "wrap()", inner), tail), None, None),)))
+                            body = (L(("e", "od()")),)
+                        else:
+                            defs = (
+                                (
+                                    "od",
+                                    "",
+                                    (("NDef", "inner", "", inner), ("For", "o", outer_it, (head, L(("e", "inner()")), tail), None, None)),
+                                ),
+                            )
+                            body = (L(("e", "od()")),)
+                        prog = {"defs": defs, "body": body, "page": None}
+                        for mode in modes:
+                            yield ("B4-nested", prog, mode, [spelling(k % 16)])
+                            k += 1
+
+
+def _retarget(body, name):
+    """rename the loop target i -> name in the statements made by subject()"""
+    import re
+
+    pat = re.compile(r"\bi\b")
+
+    def fix(s):
+        if s[0] == "L":
+            return ("L", tuple((kd, pat.sub(name, v) if kd == "e" else v) for kd, v in s[1]))
+        if s[0] == "If":
+            return ("If", tuple((pat.sub(name, cnd), tuple(fix(x) for x in bd)) for cnd, bd in s[1]), s[2])
+        return s
+
+    return tuple(fix(s) for s in body)
 
 
 # --------------------------------------------------------------------------
@@ -960,7 +1052,7 @@ def family_E(tier, dat):
                         k += 1
 
 
-FAMILIES = [family_A, family_B, family_B2, family_B3, family_C, family_D, family_E]
+FAMILIES = [family_A, family_B, family_B2, family_B3, family_B4, family_C, family_D, family_E]
 
 
 def all_cases(tier, seed):
